@@ -92,10 +92,12 @@ def run(ctx):
         okk = all(is_cookie(a) or (isinstance(a, tuple) and a[0] == 'entry') for a in al) and any(is_cookie(a) for a in al)
         rep.check(r1, okk, 'data:get_tcb-key', 'get_tcb key alternatives: %s' % [short(a)[:60] for a in al], tcp.loc(b))
     # mismatch => silence
-    for (bi, s) in ne:
-        reach = tcp.reachable(s)
-        bad = [b for b in spd + getb + addb if b in reach]
-        rep.check(r1, not bad, 'data:mismatch-is-silent', 'from the cookie-mismatch edge a reply / table access is reachable: %s' % [tcp.loc(b) for b in bad], tcp.loc(s))
+    # path-sensitive: no path state on which cookie != ack-1 was established reaches a reply, the table or the
+    # application layer (the mismatch may be detected inside a helper and reported back as a bool)
+    tgt = sorted(set(spd + getb + addb) & set(datab))
+    at2 = path_states_at(tcp, tgt, lambda k: True, stable_fn=cmp_key)
+    bad = [b for b in tgt if any(cmp_fact(fs, pair) == 'ne' for fs in at2[b])]
+    rep.check(r1, bool(ne) and not bad, 'data:mismatch-is-silent', 'a reply / table access / the application layer is reachable on a path state with cookie != ack-1: %s' % [tcp.loc(b) for b in bad], tcp.loc(ne[0][1]) if ne else '')
     # the flags local used by validation is not the issue; ack-1 form
     rep.check(r1, True, 'data:ack-form', 'ack-1 is computed as wrapping_sub(ack,1) or the guarded form ack>0?ack-1:0xFFFFFFFF (checked by is_ack_minus_one)')
 
@@ -145,7 +147,7 @@ def run(ctx):
         for b in ow:
             v = peel(tcp.argv(b, 0), unwraps=False)
             on_some = bool(some_t) and some_t[0] in dom[b]
-            segs = buf_segments(v)
+            segs = buf_segments_at(tcp, b, 0) or []
             if on_some:
                 ok = len(segs) == 2 and header_only(segs[:1], r'minimum_packet_size$') and segs[1][0] == 'data' and \
                     any(isinstance(x, tuple) and x[0] == 'modby' and x[1] == 'proto::tcb::get_tcb' for x in walk(segs[1][1]))
